@@ -1134,6 +1134,10 @@ func doReplay(path string) int {
 	fmt.Printf("--- original\n%s--- diagnostics of the original (class, line, col)\n%+v\n", f.Original, o.diags)
 	fmt.Printf("--- mutant\n%s--- diagnostics of the mutant\n%+v\n", f.Mutant, m.diags)
 	r := &runner{sum: hx.NewSummary("C13"), unknownMsg: map[string]bool{}, nontrivial: map[string]bool{}, perSection: map[string]int{}}
+	if f.Mutation != nil && f.Mutation.Kind == "foreign" {
+		r.pool = []string{f.Mutation.Key}
+		r.poolAll = true
+	}
 	r.base(f.File, []byte(f.Original), func(*mutation) bool { return false })
 	for _, g := range r.fails {
 		if g.Mutant == f.Mutant && g.What == f.What {
